@@ -2,23 +2,23 @@
    which quotas are promised "used <= max", and that the promise is kept. *)
 From Coq Require Import List ZArith Bool Lia.
 From Verif Require Import Lib.ListX C02.Model C03.Model C03.Spec C03.Proofs C03.Proofs_Runtime
-     C03.Proofs_Inv C03.Proofs_Step.
+     C03.Proofs_Inv C03.Proofs_Flight C03.Proofs_Step.
 Import ListNotations.
 Open Scope Z_scope.
 
-Lemma INV_exec cfg : forall ops wf st,
-  INV cfg wf st -> INV cfg (wf && wf_hist cfg st ops) (exec cfg st ops).
+Lemma INV_exec cfg : forall ops wf st sn,
+  INV cfg wf st -> FL wf st sn -> INV cfg (wf && wf_hist cfg st sn ops) (exec cfg st ops).
 Proof.
-  induction ops as [|o t IH]; intros wf st I; cbn [exec wf_hist].
+  induction ops as [|o t IH]; intros wf st sn I F; cbn [exec wf_hist].
   - rewrite andb_true_r. exact I.
-  - rewrite andb_assoc. apply IH. apply INV_step. exact I.
+  - rewrite andb_assoc. apply (IH _ _ (track cfg st sn o)); [apply INV_step|apply FL_step]; assumption.
 Qed.
 
 (* ---------- histories that never give up the promise ---------- *)
 (* no max is lowered and no already-bound pod is replayed *)
 Definition benign_op (st : state) (o : op) : bool :=
   match o with
-  | OPodAddBound _ _ _ _ => false
+  | OPodAddBound _ _ _ _ _ => false
   | OQuotaUpdate id mx _ _ _ =>
       match find_quota id (quotas st) with Some q => negb (lowers q mx) | None => true end
   | _ => true
@@ -66,8 +66,8 @@ Lemma TI_step cfg wf st o :
   TI cfg (quotas (fst (step cfg st o))).
 Proof.
   intros I T Hb.
-  destruct o as [id parent lend decl mx mindecl mn w|id mx mindecl mn w|id qn np req|id|id|id|t
-                 |id qn np req|]; unfold step; cbv zeta.
+  destruct o as [id parent lend decl mx mindecl mn w|id mx mindecl mn w|id qn np req keys|id|id|id|id|id|t
+                 |id qn np req keys|]; unfold step; cbv zeta.
   - (* quota add *)
     destruct (id <=? 0) eqn:E0; cbn [orb fst]; [exact T|].
     destruct (find_quota id (quotas st)) eqn:Ef; cbn [orb fst]; [exact T|].
@@ -113,6 +113,11 @@ Proof.
     destruct (find_pod id (pods st)) as [p|]; cbn [fst]; [|exact T].
     match goal with |- context [if ?b then charge st p else st] => destruct b end; [|exact T].
     unfold charge. cbn [quotas]. apply TI_upd_used. exact T.
+  - (* check *)
+    destruct (find_pod id (pods st)) as [p|]; cbn [fst]; exact T.
+  - (* reserve *)
+    destruct (find_pod id (pods st)) as [p|]; cbn [fst]; [|exact T].
+    destruct (p_assigned p); [exact T|]. unfold charge. cbn [quotas]. apply TI_upd_used. exact T.
   - (* unreserve *)
     destruct (find_pod id (pods st)) as [p|]; cbn [fst]; [|exact T].
     destruct (p_assigned p); cbn [fst quotas]; [|exact T].
@@ -125,30 +130,31 @@ Proof.
   - exact T.
 Qed.
 
-Lemma TI_exec cfg : forall ops wf st,
-  INV cfg wf st -> TI cfg (quotas st) -> benign cfg st ops = true ->
+Lemma TI_exec cfg : forall ops wf st sn,
+  INV cfg wf st -> FL wf st sn -> TI cfg (quotas st) -> benign cfg st ops = true ->
   TI cfg (quotas (exec cfg st ops)).
 Proof.
-  induction ops as [|o t IH]; intros wf st I T Hb; cbn [exec benign] in *; [exact T|].
+  induction ops as [|o t IH]; intros wf st sn I F T Hb; cbn [exec benign] in *; [exact T|].
   apply andb_true_iff in Hb. destruct Hb as [Hb1 Hb2].
-  apply (IH (wf && op_okb st o)); [apply INV_step; exact I|apply (TI_step cfg wf); assumption|exact Hb2].
+  apply (IH (wf && op_okb st sn o) _ (track cfg st sn o));
+    [apply INV_step; assumption|apply FL_step; assumption|apply (TI_step cfg wf); assumption|exact Hb2].
 Qed.
 
 (* ---------- the history theorems ---------- *)
 (* with the ghost flag: every quota whose flag is clear is within max *)
 Theorem used_le_max_flag cfg ops :
-  wf_hist cfg init_state ops = true ->
+  wf_hist cfg init_state None ops = true ->
   forall q, In q (quotas (exec cfg init_state ops)) -> q_taint q = false ->
             used_le_max q (q_used q).
 Proof.
   intros Hw q Hq Ht.
-  pose proof (INV_exec cfg ops true init_state (INV_init cfg true)) as I.
+  pose proof (INV_exec cfg ops true init_state None (INV_init cfg true) (FL_init true)) as I.
   rewrite Hw in I. exact (inv_used _ _ _ I eq_refl q Hq Ht).
 Qed.
 
 (* without the ghost flag *)
 Theorem used_le_max_plain cfg ops :
-  wf_hist cfg init_state ops = true -> benign cfg init_state ops = true ->
+  wf_hist cfg init_state None ops = true -> benign cfg init_state ops = true ->
   forall q, In q (quotas (exec cfg init_state ops)) ->
     (chk_parent cfg = true
      \/ forall c, In c (quotas (exec cfg init_state ops)) -> q_parent c <> q_id q) ->
@@ -158,7 +164,7 @@ Proof.
   apply (used_le_max_flag cfg ops Hw q Hq).
   destruct (q_taint q) eqn:Et; [exfalso|reflexivity].
   assert (T : TI cfg (quotas (exec cfg init_state ops))).
-  { apply (TI_exec cfg ops true init_state (INV_init cfg true)); [|exact Hb]. intros x []. }
+  { apply (TI_exec cfg ops true init_state None (INV_init cfg true) (FL_init true)); [|exact Hb]. intros x []. }
   destruct (T q Hq Et) as (Hc & c & Hcin & Hcp).
   destruct Hcase as [Hk|Hk]; [congruence|exact (Hk c Hcin Hcp)].
 Qed.
@@ -170,6 +176,6 @@ Theorem limit_le_max_hist cfg ops :
             used_le_max q (limit_of cfg (exec cfg init_state ops) q).
 Proof.
   intros q Hq Hok.
-  pose proof (INV_exec cfg ops true init_state (INV_init cfg true)) as I.
+  pose proof (INV_exec cfg ops true init_state None (INV_init cfg true) (FL_init true)) as I.
   apply limit_le_max; [exact (inv_nodup _ _ _ I)|exact Hq|exact Hok|exact (inv_creq _ _ _ I q Hq)].
 Qed.
